@@ -171,8 +171,18 @@ Theorem C10_mutate_substitutes_letters_for_residues :
 Proof. exact mutate_substitutes_letters_for_residues. Qed.
 Print Assumptions C10_mutate_substitutes_letters_for_residues.
 
-(* Still judged per case only (Corr/C10.v spec_check): that rogue simulation permutes residues within the
-   chosen rows only. *)
+(* rogue simulation permutes residues within rows only: every row keeps its residues *)
+Theorem C10_rogue_permutes_within_rows :
+  forall L prop proplen rs t rogue intact out r,
+  tape_ok t -> rect L rs -> rs <> [] ->
+  simulate_rogue prop proplen rs t = Some ((rogue, intact, out), r) ->
+  shape out = shape rs /\
+  forall k, Permutation.Permutation (snd (nth k out ([], []))) (snd (nth k rs ([], []))).
+Proof. exact rogue_permutes_within_rows. Qed.
+Print Assumptions C10_rogue_permutes_within_rows.
+
+(* Judged per case only (Corr/C10.v spec_check): that the rows left intact by rogue simulation are the ones
+   reported intact; distributional statements are support only. *)
 Example C10_nonvacuous :
   let rs := [([x61], [x41; x43; x47]); ([x62], [x54; x54; x41])] in
   build_bootstrap 1 rs [2 * 2 ^ 32; 0; 1 * 2 ^ 32] =
